@@ -37,7 +37,7 @@ def run_harness(ctx, state, pkg, files, test, n, seed, tag, env=None):
 
 
 def coq_compare(ctx, cases, what):
-    mism = ctx.coq_cases("Run_Cfg", "ccase", [c["coq"] for c in cases], shard=60 if len(cases) < 1200 else 150)
+    mism = ctx.coq_cases("Run_Cfg", "ccase", [c["coq"] for c in cases], shard=max(40, (len(cases) + 15) // 16) if len(cases) < 2400 else 150)
     byid = {c["id"]: c for c in cases}
     for m in mism[:5]:
         c = byid.get(m, {})
